@@ -183,6 +183,7 @@ func (s *Server) Exit(ctx context.Context) error {
 
 func (s *Server) DidOpen(ctx context.Context, params *protocol.DidOpenTextDocumentParams) error {
 	s.documents.Store(params.TextDocument.URI, params.TextDocument.Text)
+	s.payeeTemplatesCache.Delete(params.TextDocument.URI)
 	go s.publishDiagnostics(ctx, params.TextDocument.URI, params.TextDocument.Text)
 	return nil
 }
@@ -201,6 +202,8 @@ func (s *Server) DidChange(ctx context.Context, params *protocol.DidChangeTextDo
 			}
 		}
 		s.documents.Store(params.TextDocument.URI, content)
+		// templates were collected from the previous content
+		s.payeeTemplatesCache.Delete(params.TextDocument.URI)
 		if s.workspace != nil {
 			if path := uriToPath(params.TextDocument.URI); path != "" {
 				s.workspace.UpdateFile(path, content)
@@ -219,6 +222,7 @@ func isFullChange(r protocol.Range) bool {
 
 func (s *Server) DidClose(ctx context.Context, params *protocol.DidCloseTextDocumentParams) error {
 	s.documents.Delete(params.TextDocument.URI)
+	s.payeeTemplatesCache.Delete(params.TextDocument.URI)
 	tokenCache.delete(params.TextDocument.URI)
 	return nil
 }
